@@ -86,8 +86,34 @@ NEEDS2 = {
     'C18/2': ('get_disjoint_unchecked_mut tracks resolved requests in a u64 bit mask', 'more than 64 pairwise different keys'),
     'C20/1': ('deserialize_in_place override merges into the old contents', 'deserialize_in_place into a non-empty target'),
     'C20/2': ('Serialize via collect_seq(self) also for Map', 'any self-describing format (a Map is emitted as a sequence of pairs)'),
-    'C07/1': ('(see notes.md)', '(see notes.md)'), 'C07/2': ('(see notes.md)', '(see notes.md)'),
-    'C17/1': ('(see notes.md)', '(see notes.md)'), 'C17/2': ('(see notes.md)', '(see notes.md)'),
+    'C07/1': ('Map::remove (behind Set::remove) recovers the slot index with ptr::offset_from instead of enumerate()', 'a zero-sized element type: removing a present element panics / removes the wrong slot'),
+    'C07/2': ('Set::retain first trims the rejected tail in a prelude, then runs Map::retain: the predicate is asked twice for some elements', 'a stateful (FnMut) predicate: elements are kept or removed against the answer the caller counts on'),
+    'C17/1': ('get_disjoint_unchecked_mut: the on-stack hit list is written and read with get_unchecked(_mut)', 'a PartialEq that matches one request against several stored keys (more than J hits): write past the array'),
+    'C17/2': ('Map::clear drops the live prefix with one drop_in_place on the slice and resets len afterwards', 'an element destructor that panics during clear(), panic caught: the map still covers destroyed slots'),
+}
+
+
+NEEDS3 = {
+    'C01/1': ('checked_insert with room left passes update_key = true to insert_ii', 'present key re-inserted through checked_insert on a non-full map + equal-but-distinguishable keys'),
+    'C01/2': ('Map::insert passes update_key = true to insert_ii', 'present key re-inserted + equal-but-distinguishable keys: the stored key object is replaced'),
+    'C02/1': ('Map::clear resets len only after the destructor loop', 'a key or value destructor that panics during clear(), panic caught: double drop on Drop for Map'),
+    'C02/2': ('Map::clone sets the clone\'s len before the copy loop', 'an element Clone that panics part-way: destructors run on slots that hold no element'),
+    'C05/1': ('insert_i: the append test `target == self.len` became `target <= self.len`', 'insert_unchecked of a key that is already present: len grows although nothing was appended'),
+    'C05/2': ('insert_i: the old pair is read out of slot self.len instead of the matched slot', 'insert_unchecked update of a present key after the map has shrunk: duplicate / resurrected keys'),
+    'C07/1': ('Extend<T> for Set calls replace() instead of insert()', 'a repeat fed through extend + equal-but-distinguishable elements: the stored member is evicted'),
+    'C07/2': ('Map::insert (behind Set::insert) passes update_key = true', 'an unsuccessful Set::insert + distinguishable equal elements: the refused argument becomes the member'),
+    'C08/1': ('is_subset: the length shortcut `<=` became `<`', 'two sets of equal size where one is a subset of the other (e.g. equal sets): false instead of true'),
+    'C08/2': ('DifferenceRef::fold: the two branches of the membership filter are swapped', 'internal iteration (fold / for_each / count via fold) over difference_ref'),
+    'C09/1': ('insert_i: `target == self.len` became `target <= self.len`', 'insert_unchecked of a present key, then any borrowing iterator: one entry too many (a dead slot)'),
+    'C09/2': ('Map::remove_entry scans pairs[..N] instead of pairs[..self.len]', 'remove_entry / Set::take of a key that was removed earlier and whose bits still sit in a dead slot'),
+    'C10/1': ('Drain::drop calls assume_init_mut() instead of assume_init_drop()', 'a drain dropped before exhaustion with droppable payloads: the remaining elements leak'),
+    'C10/2': ('IntoIter::count returns self.map.pairs.len() (the capacity) instead of self.map.len()', 'count() on into_iter() of a map that is not full'),
+    'C11/1': ('VacantEntry::insert passes update_key = true to insert_ii', 'a key whose equality changes between entry() and insert (interior mutability): the stored key object is swapped'),
+    'C11/2': ('insert_ii reports self.len instead of the matched slot in the found/keep-key arm', 'same scenario as C11-5: or_insert / VacantEntry::insert return a reference to slot len (dead or out of range)'),
+    'C13/1': ('get_disjoint_unchecked_mut: the single-request shortcut tests N == 1 instead of J == 1', 'capacity-1 map and J >= 2 requests: only request 0 is answered'),
+    'C13/2': ('get_disjoint_mut: the early return tests self.is_empty() instead of ks.is_empty()', 'J == 0 on a non-empty map: ks[..ks.len() - 1] underflows and panics'),
+    'C16/1': ('Map::from_iter calls insert_key_value instead of insert', 'a source with a repeated key + distinguishable equal keys: the later key object is stored'),
+    'C16/2': ('Extend<T> for Set goes through map.checked_insert', 'a source with more new elements than free room: the overflow is silently dropped instead of panicking'),
 }
 
 
@@ -97,6 +123,8 @@ def main():
     rounds = [(NEEDS, OUT, RES, 0)]
     if len(sys.argv) > 2:
         rounds.append((NEEDS2, '/tmp/seed/out2', sys.argv[2], 2))
+    if len(sys.argv) > 3:
+        rounds.append((NEEDS3, '/tmp/seed/out3', sys.argv[3], 4))
     for needs, OUTD, RESD, off in rounds:
         rows += one_round(needs, OUTD, RESD, off)
     for r in rows:
@@ -111,6 +139,7 @@ def one_round(NEEDS, OUT, RES, off):
         src = os.path.join(OUT, prop, n)
         cf = os.path.join(RES, name + '.confirm.json')
         kf = os.path.join(RES, name + '.checks.json')
+        k0 = key
         key = '%s/%d' % (prop, int(n) + off)
         if not (os.path.exists(src) and os.path.exists(cf)):
             rows.append((key, 'no confirmation yet'))
@@ -140,8 +169,8 @@ def one_round(NEEDS, OUT, RES, off):
             profile += '; needs --features ' + conf['demo_features']
         meta = {
             'breaks_property': prop,
-            'change': NEEDS[key][0],
-            'needs_to_manifest': NEEDS[key][1],
+            'change': NEEDS[k0][0],
+            'needs_to_manifest': NEEDS[k0][1],
             'demo_fails_in': profile,
             'written_by': 'independent sub-agent given only the property text and a scratch worktree',
             'confirmed_here': {
